@@ -31,7 +31,10 @@ from harness import vloop
 SIMS: dict[str, 'SimSlave'] = {}          # host name -> simulated slave
 
 PORT_MODIFIABLE = {'display_name', 'unit', 'enabled', 'tag', 'expression', 'transform_read', 'transform_write',
-                   'persisted', 'internal', 'history_interval', 'history_retention'}
+                   'persisted', 'internal', 'history_interval', 'history_retention',
+                   # a slave that is itself a hub: the expression / history attributes of ITS slaves' ports
+                   'device_expression', 'device_history_interval', 'device_history_retention',
+                   'device_device_expression', 'device_device_history_interval', 'device_device_history_retention'}
 DEVICE_MODIFIABLE = {'display_name', 'timezone', 'admin_password', 'normal_password', 'viewonly_password'}
 
 
@@ -141,6 +144,15 @@ class SimSlave:
         if changed:
             self.emit('port-update', self.port_json(pid), obj=pid)
         return changed
+
+    def del_port_attr(self, pid: str, name: str):
+        """The port is reconfigured on the device so that an (optional) attribute disappears."""
+        p = self.ports[pid]
+        if name not in p['attrs']:
+            return False
+        del p['attrs'][name]
+        self.emit('port-update', self.port_json(pid), obj=pid)
+        return True
 
     def set_value(self, pid: str, value):
         p = self.ports[pid]
